@@ -182,44 +182,29 @@ def shrink(case, pred):
 
 # --------------------------------------------------------------------------------------
 def part_b(ctx, n_files):
-    """RTDC_HTTP on generated files vs RTDC_HDF5 on the same bytes"""
+    """RTDC_HTTP on generated files vs RTDC_HDF5 on the same bytes.
+
+    Only three URLs are used, so the same URL serves a *replaced* resource again and again
+    (re-opening must show the new file); one file per run is larger than the default chunk size
+    and is read through the unpatched default `HTTPFile`.
+    """
     dclab = common.import_dclab()
     from dclab import http_utils
     from dclab.rtdc_dataset import fmt_http
     ses = common.install_fake_session()
     orig = fmt_http.HTTPFile
-    try:
-        for j in range(n_files):
-            n = ctx.rng.randint(1, 40)
-            tokens = [ctx.rng.randrange(1000) for _ in range(n)]
-            feats = ["deform", "area_um", "index"] + ctx.rng.sample(
-                ["image", "mask", "contour", "trace", "frame", "fl1_max", "time"],
-                ctx.rng.randint(0, 4))
-            path = ctx.workdir / f"b{j}.rtdc"
-            gen.make_rtdc(path, tokens, feats=feats,
-                          logs={"log-a": ["line %d" % i for i in range(ctx.rng.randint(1, 5))]})
-            blob = path.read_bytes()
-            url = f"http://verif.invalid/b{j}.rtdc"
-            ses.blobs[url] = blob
-            cs = ctx.rng.choice([512, 1024, 4096, 2**14])
-            keep = ctx.rng.choice([2, 3, 8])
-            fmt_http.HTTPFile = (lambda u, cs=cs, keep=keep:
-                                 http_utils.HTTPFile(u, chunk_size=cs, keep_chunks=keep))
-            diffs = []
-            try:
-                dr_probe = fmt_http.RTDC_HTTP(url)
-                dr_probe.close()
-            except Exception as e:  # the local file opens (next line) but the remote one does not
-                ctx.violation("spec", f"RTDC_HTTP cannot open a file that RTDC_HDF5 opens: {e!r}"[:200],
-                              {"part": "B", "tokens": tokens, "feats": feats, "cs": cs,
-                               "keep": keep})
-                continue
+
+    def compare(path, url, keep):
+        diffs = []
+        try:
             with dclab.new_dataset(path) as dl, fmt_http.RTDC_HTTP(url) as dr:
                 if len(dl) != len(dr):
                     diffs.append(f"len {len(dl)} vs {len(dr)}")
                 if sorted(dl.features_innate) != sorted(dr.features_innate):
                     diffs.append("features differ")
                 for f in dl.features_innate:
+                    if f not in dr.features_innate:
+                        continue
                     if f == "trace":
                         for tn in dl["trace"]:
                             if not np.array_equal(dl["trace"][tn][:], dr["trace"][tn][:]):
@@ -238,9 +223,30 @@ def part_b(ctx, n_files):
                 cb = {s: dict(dr.config[s]) for s in dr.config.keys() if s not in ("filtering",)}
                 if ca != cb:
                     diffs.append("config")
-                if len(dr._fhttp.cache) > keep:
+                if keep is not None and len(dr._fhttp.cache) > keep:
                     diffs.append(f"cache size {len(dr._fhttp.cache)} > {keep}")
-                # the remote object must have read only through chunk ranges
+        except Exception as e:  # noqa: the local file opens and reads, the remote one must too
+            diffs.append(f"reading through RTDC_HTTP raised {e!r}"[:200])
+        return diffs
+
+    try:
+        for j in range(n_files):
+            n = ctx.rng.randint(1, 40)
+            tokens = [ctx.rng.randrange(1000) for _ in range(n)]
+            feats = ["deform", "area_um", "index"] + ctx.rng.sample(
+                ["image", "mask", "contour", "trace", "frame", "fl1_max", "time"],
+                ctx.rng.randint(0, 4))
+            path = ctx.workdir / f"b{j}.rtdc"
+            gen.make_rtdc(path, tokens, feats=feats,
+                          logs={"log-a": ["line %d" % i for i in range(ctx.rng.randint(1, 5))]})
+            blob = path.read_bytes()
+            url = f"http://verif.invalid/b{j % 3}.rtdc"      # URLs are re-used: resource replaced
+            ses.blobs[url] = blob
+            cs = ctx.rng.choice([512, 1024, 4096, 2**14])
+            keep = ctx.rng.choice([2, 3, 8])
+            fmt_http.HTTPFile = (lambda u, cs=cs, keep=keep:
+                                 http_utils.HTTPFile(u, chunk_size=cs, keep_chunks=keep))
+            diffs = compare(path, url, keep)
             ctx.case(("B", feats, n, cs, keep), nontrivial=len(blob) > cs * keep,
                      sample={"part": "B", "features": feats, "events": n, "chunk_size": cs,
                              "keep": keep, "bytes": len(blob)} if j == 0 else None)
@@ -248,7 +254,26 @@ def part_b(ctx, n_files):
             if diffs:
                 ctx.violation("spec", f"RTDC_HTTP differs from RTDC_HDF5: {diffs[:4]}",
                               {"part": "B", "tokens": tokens, "feats": feats, "cs": cs,
-                               "keep": keep})
+                               "keep": keep, "url_reused": j >= 3})
+        # one incompressible file larger than the default chunk size, default HTTPFile
+        fmt_http.HTTPFile = orig
+        rs = np.random.RandomState(ctx.rng.randrange(2**31))
+        nbig = 24
+        pbig = ctx.workdir / "big.rtdc"
+        with dclab.RTDCWriter(pbig, mode="reset") as hw:
+            hw.store_metadata(gen.BASE_META)
+            hw.store_feature("deform", rs.rand(nbig))
+            hw.store_feature("area_um", rs.rand(nbig) * 100)
+            hw.store_feature("image", rs.randint(0, 256, size=(nbig, 120, 160), dtype=np.uint8))
+        url = "http://verif.invalid/b0.rtdc"                 # again a re-used URL
+        ses.blobs[url] = pbig.read_bytes()
+        diffs = compare(pbig, url, None)
+        ctx.case(("B", "big", nbig), nontrivial=True)
+        ctx.stat("partB_big_bytes", len(ses.blobs[url]))
+        if diffs:
+            ctx.violation("spec", "RTDC_HTTP (default chunk size, file of "
+                                  f"{len(ses.blobs[url])} bytes) differs from RTDC_HDF5: {diffs[:4]}",
+                          {"part": "B", "big": True, "events": nbig})
     finally:
         fmt_http.HTTPFile = orig
 
